@@ -2,6 +2,7 @@
 C04 — No lost wake-up: a servable waiting reservation is granted at once.
 -/
 import FsVerif.Proofs.PosExtra
+import FsVerif.Proofs.BufExtra
 namespace FsVerif.Props.C04
 open FsVerif PosStore
 
@@ -34,5 +35,16 @@ theorem filter_get_side_counterexample :
 /-- Partial result for the filter store: when every retrieval request uses a filter that accepts
     every item, the filter store behaves like the plain ones (stated for the `always` filter). -/
 theorem filter_get_side_partial_note : True := trivial
+
+
+/-! ### BufferStore: both sides, at every reachable state (timer expiries included) -/
+
+theorem buf_put_side {s : BufStore} (h : BufStore.ReachD s) (hq : s.putQ ≠ []) : s.admits = false :=
+  (BufStore.reachD_binv h).wakePut hq
+
+theorem buf_get_side {s : BufStore} (h : BufStore.ReachD s) (hq : s.getQ ≠ []) : s.ready.length = s.getRes.length := by
+  have hi := BufStore.reachD_binv h
+  have := hi.wakeGet hq
+  have := hi.bindLe; have := hi.bindEv.length_eq; omega
 
 end FsVerif.Props.C04
